@@ -12,6 +12,10 @@
 // forwarder record. Stage T: outcome, session, stored record and the key the
 // victim believes in afterwards are judged by TLC (Identity_Trace). The
 // generator's results are checked with an independent digest implementation.
+// Stage H (history.go): histories against ONE long-lived victim - several genuine routers make contact through
+// pings, hop records and link set-ups, sessions are used, idle away, are removed by ticks of the real session
+// cleaner and made again for the same and for other addresses; frames whose address, key material and signing key
+// belong to different routers must be refused, each router's own frame accepted (same trace, FrameOK).
 package main
 
 import (
@@ -667,7 +671,7 @@ func presentHop(c *vf.Ctx, a act, rng *rand.Rand) (obs, bool, forged) {
 func main() { vf.Main("C01", "model_checking", run) }
 
 func run(c *vf.Ctx) {
-	c.Rule("M: TLC enumerates entry point (config, peering, ping, hop) x genuine identity with/without easing x address kind (4) x hash name kind (5) x key type kind (3) x key kind (6) x easing kind (2) = 5760 presentations with the code-order checks against the declarative Acceptable, plus 5 x 16 x 16 generator cases. R: every single-field corruption through every entry plus a seeded sample of multi-field ones (quick) or all 5760 (thorough), concrete values drawn per class (bit positions, names, sizes); thorough also flips each of the 120 address bits and 256 key bits. Generator: real GenerateRoutableAddress over prefix/ignore sets, results checked with an independent BLAKE3 digest and reloaded from their stored form. T: TLC judges every observation. distinct = distinct (entry, classes, concrete values)")
+	c.Rule("M: TLC enumerates entry point (config, peering, ping, hop) x genuine identity with/without easing x address kind (4) x hash name kind (5) x key type kind (3) x key kind (6) x easing kind (2) = 5760 presentations with the code-order checks against the declarative Acceptable, plus 5 x 16 x 16 generator cases. R: every single-field corruption through every entry plus a seeded sample of multi-field ones (quick) or all 5760 (thorough), concrete values drawn per class (bit positions, names, sizes); thorough also flips each of the 120 address bits and 256 key bits. Generator: real GenerateRoutableAddress over prefix/ignore sets, results checked with an independent BLAKE3 digest and reloaded from their stored form. H: histories against one long-lived victim (2-4 genuine routers with their own stacks plus the victim's peer and the router behind it; pings, hop records, link set-ups, pings of the victim, idle periods of 20 s - 3 h each followed by a tick of the real session cleaner; a sweep over all members at the end): a frame / record for address X is accepted only when signed with the key X is the digest of, X's own frame is accepted, a bit-flipped address gets no session. T: TLC judges every observation. distinct = distinct (entry, classes, concrete values)")
 	c.Assume("collision resistance of the digest", "'loaded from configuration or storage' is read as the identity's stored form (AddressFromStorage / mycoria.New)", "a presentation the liar's own router stack cannot produce (its code refuses the forged identity before anything is sent) is counted as unpresentable, not judged")
 
 	res, err := c.TLC("Identity", "Identity_MC.cfg", vf.TLCOpts{Workers: 1})
@@ -928,6 +932,12 @@ func run(c *vf.Ctx) {
 	}
 	c.Logf("generator: %d calls", nGen)
 
+	// ---- H: histories of identities against one long-lived victim each (history.go)
+	hevs, hsubs := historyStage(c, rng)
+	for _, e := range hevs {
+		trace = append(trace, e)
+	}
+
 	// ---- T
 	rejectAt, inv, tres, err := c.TraceCheck("Identity_Trace", "Identity_Trace.cfg", trace, vf.TLCOpts{Timeout: 20 * time.Minute})
 	if err != nil {
@@ -949,6 +959,24 @@ func run(c *vf.Ctx) {
 				n++
 				c.Violation(vf.Key(why, v.Entry, v.Eased, v.IP, v.Hash, v.Type, v.Key, v.Easing), fmt.Sprintf("identity presented through %s (address %s, hash %s, type %s, key %s, easing %s, genuine identity eased=%v; values %v): %s: outcome=%s session=%v stored=%v bound key=%s %s",
 					v.Entry, v.IP, v.Hash, v.Type, v.Key, v.Easing, v.Eased, descs[i], why, v.Outcome, v.Session, v.Stored, v.BoundKey, v.Detail), map[string]any{"observation": v, "values": descs[i]}, nil)
+			}
+		case hev:
+			if w := explainHist(v); w != "" {
+				n++
+				sub := hsubs[v.Inst]
+				c.Violation(vf.Key("history", w, v.Via, v.Addr, v.Hdr == v.Claimed, v.Signer == v.Claimed), w+": "+describeHist(v, hevs), map[string]any{"event": v, "sub_seed": sub, "instance": v.Inst}, func() bool {
+					// the same history once more, on a new victim (which struct the cleaner hands out next may differ)
+					// (which struct, which map slot the real code uses next is not the driver's to decide: up to three goes)
+					for try := 0; try < 3; try++ {
+						es, _ := runHistory(c, v.Inst, sub, !c.Thorough())
+						for _, e := range es {
+							if explainHist(e) == w {
+								return true
+							}
+						}
+					}
+					return false
+				})
 			}
 		case map[string]any:
 			if w := explainGen(v); w != "" {
